@@ -21,7 +21,7 @@ Is(e) == l <= N /\ TraceLog[l].ev = e
 Consume == l' = l + 1
 
 IdleCfg == [min |-> 0, max |-> 0, tol |-> 1, failures |-> "ignore", errors |-> "ignore", cfe |-> FALSE,
-            L |-> 1, t |-> 0, offset |-> 0, c0 |-> <<>>, src |-> <<>>, st0 |-> "-", it0 |-> -1]
+            L |-> 1, t |-> 0, lags |-> 0, leads |-> 0, offset |-> 0, c0 |-> <<>>, src |-> <<>>, st0 |-> "-", it0 |-> -1]
 
 TraceInit ==
   /\ l = 1
@@ -51,6 +51,7 @@ TExit    == /\ Is("exit") /\ pc = "done"
 
 (* -- silent steps (no hook at these code points) -------------------------- *)
 Silent == /\ \/ GuardMinMax
+             \/ GuardFeasible
              \/ (OffsetStep /\ (cfg.offset = 0 \/ pc' = "done"))
              \/ PreCheck
              \/ Before("exc", <<>>)
